@@ -43,6 +43,11 @@ class Interp:
             return VStr(p.fresh(hint, z3.StringSort()))
         if t is TNone:
             return VNone()
+        if t is TPath:
+            return VPath(p.fresh(hint, z3.StringSort()))
+        if hasattr(t, "fresh"):
+            # extension types (e.g. pyvc/fsmodel.py: optional exception values) build their own havoc'd value
+            return t.fresh(self, hint)
         if isinstance(t, TUn):
             return VUn(p.fresh(hint, t.sort()), t)
         if isinstance(t, TOpt):
@@ -233,6 +238,11 @@ class Interp:
         while e is not None:
             chain.append(e)
             e = e.parent
+        ge = getattr(self, "ghost_env", None)
+        if ge is not None and all(x is not ge for x in chain):
+            # environments of inlined functions do not chain to the ghost environment: snapshot it as well, so that
+            # pre_loop(<ghost var>) in their loop invariants means the value at loop entry
+            chain.append(ge)
         new_parent = None
         for e in reversed(chain):
             ne = Env(new_parent, e.module)
@@ -287,7 +297,7 @@ class Interp:
                 r = self.call_method_ast(v, "__len__", [], {})
                 return self.truth(r)
             return z3.BoolVal(True)
-        if isinstance(v, (VFunc, VClass, VModule, VRec, VUn, VOpaque, VExc)):
+        if isinstance(v, (VFunc, VClass, VModule, VRec, VUn, VOpaque, VExc, VPath)):
             return z3.BoolVal(True)
         raise Unsupported("truth of %s" % type(v).__name__)
 
@@ -335,6 +345,8 @@ class Interp:
                 return a.e == b.e
             return to_int(a) == to_int(b)
         if isinstance(a, VStr) and isinstance(b, VStr):
+            return a.e == b.e
+        if isinstance(a, VPath) and isinstance(b, VPath):
             return a.e == b.e
         if isinstance(a, VUn) and isinstance(b, VUn) and a.t == b.t:
             return a.e == b.e
@@ -430,6 +442,12 @@ class Interp:
         v = env.lookup(name)
         if v is not None:
             return v
+        if self.spec and getattr(self, "ghost_env", None) is not None:
+            # ghost variables of the contract are visible to every specification, also to loop invariants of
+            # functions interpreted inline (whose environments do not chain to the ghost environment)
+            v = self.ghost_env.vars.get(name)
+            if v is not None:
+                return v
         v = self.ver.module_name(env.module, name, self)
         if v is not None:
             return v
@@ -533,7 +551,21 @@ class Interp:
         raise Unsupported("dict literal with symbolic keys")
 
     def ev_Set(self, n, env):
-        raise Unsupported("set literal")
+        """{a, b, c}: a set of scalars of one encodable type (cardinality exact for constants, else 1..n)"""
+        items = [self.ev(e, env) for e in n.elts]
+        if not items or any(not isinstance(x, (VInt, VStr, VBool, VUn)) for x in items):
+            raise Unsupported("set literal")
+        kt = self.join_types([typeof(x) for x in items])
+        dom = z3.K(kt.sort(), z3.BoolVal(False))
+        for x in items:
+            dom = z3.Store(dom, unwrap(x, kt), z3.BoolVal(True))
+        cs = [const_of(x) for x in items]
+        if all(c is not _NOCONST for c in cs):
+            card = z3.IntVal(len(set(cs)))
+        else:
+            card = self.path.fresh("setlit_card", z3.IntSort())
+            self.path.assume(z3.And(card >= 1, card <= len(items)))
+        return VSet(dom, card, kt)
 
     def ev_JoinedStr(self, n, env):
         parts = []
@@ -1124,6 +1156,7 @@ class Interp:
         if m is None:
             raise Unsupported("statement %s at line %s" % (type(s).__name__, getattr(s, "lineno", "?")))
         self.ver.cover(s)
+        self.cur_line = getattr(s, "lineno", 0)
         return m(s, env)
 
     def ex_Expr(self, s, env):
@@ -1458,10 +1491,14 @@ class Interp:
                 self.raise_exc("RuntimeError", "no active exception")
             raise PyRaise(cur)
         v = self.ev(s.exc, env)
+        if isinstance(v, VOptObj):
+            v = self.force(v)       # optional exception value (fsmodel.TOptExc); None -> TypeError below
         if isinstance(v, VClass):
             v = self.call(v, [], {})
         if isinstance(v, VExc):
             raise PyRaise(v)
+        if isinstance(v, VNone):
+            self.raise_exc("TypeError", "exceptions must derive from BaseException")
         if isinstance(v, VObj) and self.ver.is_exc_class(v):
             raise PyRaise(VExc(self.class_of(v).name, [v]))
         raise Unsupported("raise of non-exception value")
@@ -1513,9 +1550,17 @@ class Interp:
                     raise
             else:
                 self.exec_block(s.orelse, env)
-        except (PyRaise, ReturnSig, BreakSig, ContinueSig):
+        except (PyRaise, ReturnSig, BreakSig, ContinueSig) as sig:
             if s.finalbody:
-                self.exec_block(s.finalbody, env)
+                # while a `finally` block runs because of an exception, that exception is the one "being handled":
+                # a bare `raise` inside it re-raises *it* (not the exception of an enclosing handler)
+                saved = getattr(self, "cur_exc", None)
+                if isinstance(sig, PyRaise):
+                    self.cur_exc = sig.exc
+                try:
+                    self.exec_block(s.finalbody, env)
+                finally:
+                    self.cur_exc = saved
             raise
         else:
             if s.finalbody:
@@ -1643,6 +1688,14 @@ class Interp:
                     genv.vars[gname] = self.havoc_like(gv, "lg_" + gname)
         for extra in spec.get("modifies", []):
             paths.append(extra)
+        ge = getattr(self, "ghost_env", None)
+        if ge is not None and "fs" in ge.vars:
+            # abstract file system (pyvc/fsmodel.py): I/O primitives mutate the ghost state behind the back of the
+            # syntactic modifies analysis, so every cut loop havocs it (the invariants say what is preserved)
+            from . import fsmodel
+            for g in fsmodel.GHOST_NAMES:
+                if g in ge.vars and g not in paths:
+                    paths.append(g)
         for nm in sorted(names):
             cur = env.lookup(nm)
             lt = self.ver.local_type(self, nm)
